@@ -129,6 +129,16 @@ def float_eval(dentries, dobs, gq, t, field):
     g = R.from_quat(gq)
     t = np.array(t, dtype=float)
     f = magpy.getB if field == "B" else magpy.getH
+    if dobs["kind"] == "array-attributes":
+        # ONE collection with a static own pose (c, Rc), all objects static, moved through its ATTRIBUTES:
+        # orientation = g*Rc rotates the whole tree about c, position = g.c + t then translates it: x -> g.x + t
+        pts = np.array(dobs["points"], dtype=float)
+        c = np.array(dentries[0]["position"][0], dtype=float)
+        B0 = f(entries, pts, squeeze=False)
+        entries[0].orientation = g * entries[0].orientation
+        entries[0].position = g.apply(c) + t
+        B1 = f(entries, g.apply(pts) + t, squeeze=False)
+        return g.apply(B0.reshape(-1, 3)).reshape(B0.shape), B1
     if dobs["kind"] == "array-own-anchor":
         # ONE collection with a static own pose, rotated about its own position (anchor=None): for the
         # whole tree this is the rigid motion x -> g(x - c) + c + t
@@ -258,7 +268,7 @@ def shrink_float(dentries, dobs, gq, t, field, bad_index):
     cur = [dentries[bad_index]]
     if not bad(cur):
         return dentries
-    if dobs["kind"] == "array-own-anchor":
+    if dobs["kind"] in ("array-own-anchor", "array-attributes"):
         return cur
     d = cur[0]
     while d["class"] == "Collection":
@@ -285,8 +295,9 @@ def float_search(ctx, n):
     rng = ctx.rng
     worst = 0.0
     for _ in range(n):
-        nested = rng.random() < 0.12
-        entries, desc = l2b.nested_setup(rng) if nested else l2b.real_setup(rng)
+        nested = rng.random() < 0.16
+        by_attr = nested and rng.random() < 0.4
+        entries, desc = (l2b.nested_setup(rng, 1 if by_attr else 2)) if nested else l2b.real_setup(rng)
         field = rng.choice(["B", "H"])
         if nested or rng.random() < 0.5:
             dobs = {"kind": "array", "points": [l2b.rvec(rng, -5, 5) for _ in range(rng.randint(1, 4))]}
@@ -303,7 +314,11 @@ def float_search(ctx, n):
         t = l2b.rvec(rng, -3, 3)
         dentries = [l2b.dump_obj(e) for e in entries]
         devs, err = float_dev(dentries, dobs, gq, t, field)
-        if dobs["kind"] == "array" and len(dentries) == 1 and dentries[0]["class"] == "Collection" and rng.random() < 0.6:
+        if by_attr:
+            dobs = dict(dobs, kind="array-attributes")
+            devs, err = float_dev(dentries, dobs, gq, t, field)
+            ctx.bump("float:nested-collection-moved-through-attributes")
+        elif dobs["kind"] == "array" and len(dentries) == 1 and dentries[0]["class"] == "Collection" and rng.random() < 0.6:
             dobs = dict(dobs, kind="array-own-anchor")
             devs, err = float_dev(dentries, dobs, gq, t, field)
             ctx.bump("float:collection-rotated-about-own-position")
@@ -326,9 +341,10 @@ def float_search(ctx, n):
             dobs["kind"].startswith("array") or all(len(s["position"]) == 1 for s in dobs["sensors"])) else "path"
         what = acceptable(small, dobs, gq, t, field) or err or f"deviation {max(devs):.2e}"
         trig = '+'.join(leaf_class(d) for d in small) + ":" + pk
-        if dobs["kind"] == "array-own-anchor":
+        if dobs["kind"] in ("array-own-anchor", "array-attributes"):
             nested_c = any(c["class"] == "Collection" for c in small[0].get("children", []))
-            trig = "Collection:rotate-about-own-position" + (":nested" if nested_c else "")
+            how = "rotate-about-own-position" if dobs["kind"] == "array-own-anchor" else "position/orientation-attributes"
+            trig = "Collection:" + how + (":nested" if nested_c else "")
         ctx.impl_fail(f"{form}/{'raises:' if err else ''}{trig}", what,
                       {"kind": "float", "entries": small, "observers": dobs, "g_quat": gq, "t": t, "field": field})
     ctx.extra["float_worst_relative_deviation"] = worst
